@@ -51,7 +51,7 @@ func (c *AlphaController) HiddenAlpha() error {
 // @Method(DELETE)
 // @Route(/items/{id})
 // @Path(id)
-// @Security(schemeB, { scopes: ["write", "admin"] })
+// @Security(schemeB, { scopes: ["write", "admin", "orders:read&write", "tenant's"] })
 // @Deprecated use something else
 func (c *AlphaController) DeleteAlpha(id string) error {
 	return nil
